@@ -467,6 +467,43 @@ def runDlSelLine (r : Report) (sec : Nat) (l : Line) : Report :=
   | _ => runDlLine r sec l
 
 
+
+/-! ### Hijack lines: `hij <sup|nosup> <kind> <before|after>` => `hijack=<ok|refused|unsupported>` -/
+
+def showHij : HijRes → String
+  | .ok => "ok"
+  | .refused => "refused"
+  | .unsupported => "unsupported"
+
+def runHijLine (r : Report) (sec : Nat) (l : Line) : Report :=
+  match l.op with
+  | ["hij", sup, kindTok, whenTok] =>
+    match parseKind kindTok with
+    | some (some k) =>
+      if (sup ≠ "sup" && sup ≠ "nosup") || (whenTok ≠ "before" && whenTok ≠ "after") then
+        r.mismatch sec l.idx "bad-op" (joinSp l.op)
+      else
+        let supported := sup = "sup"
+        -- the state of the timeoutWriter at the moment of the Hijack: the timeout branch has run or not
+        let s0 := St.init []
+        let s1 := if whenTok = "after" then
+          stepD (stepD (stepD (stepD (stepD s0 (.env k)) .mTimeout) .mAdv) .mAdv) .mAdv else s0
+        let fixed := "hijack=" ++ showHij (hijack s1.tw supported)
+        let pinned := "hijack=" ++ showHij (hijackPinned s1.tw supported)
+        let impl := joinSp l.obs
+        let r := r.addCover s!"hijack-{sup}-{whenTok}"
+        let r := if impl = fixed then (if fixed ≠ pinned then r.addCover "hijack-only-explained-by-fixed-Hijack" else r)
+          else if impl = pinned then r.addCover "hijack-only-explained-by-pinned-Hijack"
+          else r.mismatch sec l.idx fixed impl
+        -- monitor: after the timeout the connection must not be handed to the work
+        if whenTok = "after" && obsOf l "hijack" = "ok" then
+          r.violation sec l.idx s!"[known-class hijack-after-timeout] Hijack after the timeout handed the connection to the work: op=[{joinSp l.op}] impl=[{impl}]"
+        else if whenTok = "after" && obsOf l "hijack" ≠ "refused" && obsOf l "hijack" ≠ "unsupported" then
+          r.violation sec l.idx s!"Hijack after the timeout neither refused nor unsupported: op=[{joinSp l.op}] impl=[{impl}]"
+        else r
+    | _ => r.mismatch sec l.idx "bad-op" (joinSp l.op)
+  | _ => r.mismatch sec l.idx "bad-op" (joinSp l.op)
+
 /-! ### rest engine wiring (sections `wrapper=eng`) -/
 
 def parseRouteOpt (s : String) : Option RouteOpt :=
@@ -548,6 +585,7 @@ def runSection (r : Report) (s : Section) : Report :=
     | some "rest" => runRestLine r s.idx l true
     | some "race" => runRestLine r s.idx l false
     | some "dl" => runDlSelLine r s.idx l
+    | some "hij" => runHijLine r s.idx l
     | some "edl" | some "emax" =>
       (match parseEng s.cfg with
         | some es => runEngLine r s.idx l es
